@@ -559,6 +559,8 @@ class ExtendedIndexedOperand(Operand):
 
         if not INDEX_REGISTER_REGEX.match(self.right):
             raise OperandTypeError("[{}] is not an index register".format(self.right))
+        if self.right == "PCR" and type(self.left) == str and self.left in ("", "A", "B", "D"):
+            raise OperandTypeError("[{}] program counter relative addressing needs an offset".format(self.operand_string))
 
         raw_post_byte = 0x80
         post_byte_choices = []
@@ -697,6 +699,8 @@ class IndexedOperand(Operand):
             )
         if not INDEX_REGISTER_REGEX.match(self.right):
             raise OperandTypeError("[{}] is not an index register".format(self.right))
+        if self.right == "PCR" and type(self.left) == str and self.left in ("", "A", "B", "D"):
+            raise OperandTypeError("[{}] program counter relative addressing needs an offset".format(self.operand_string))
 
         raw_post_byte = 0x00
         post_byte_choices = []
